@@ -326,6 +326,131 @@ theorem run_frame (I : Impl σ α) (w : World σ) (h : List (Op α)) (k : Nat) (
 end NmVerif.Containers
 
 namespace NmVerif.Containers
+
+/-- per-operation obligations for an object invariant `P` and a ledger invariant `Q` on histories whose
+    operations satisfy `ok` -/
+structure Pres (I : Impl σ α) (P : σ → Prop) (Q : Ledger → Prop) (ok : Op α → Prop) : Prop where
+  mkDefault : ∀ s L, ok (.ctor s) → Q L → P (I.mkDefault L).1 ∧ Q (I.mkDefault L).2
+  mkSized : ∀ s n L, ok (.ctorN s n) → Q L → P (I.mkSized n L).1 ∧ Q (I.mkSized n L).2
+  mkVariadic : ∀ s vs L, ok (.ctorV s vs) → Q L → P (I.mkVariadic vs L).1 ∧ Q (I.mkVariadic vs L).2
+  mkCopy : ∀ d s x L, ok (.copy d s) → P x → Q L → P (I.mkCopy x L).1 ∧ Q (I.mkCopy x L).2
+  assign : ∀ d s x y L, ok (.assign d s) → P x → P y → Q L → P (I.assign x y L).1 ∧ Q (I.assign x y L).2
+  assignSelf : ∀ d x L, ok (.assign d d) → P x → Q L → P (I.assignSelf x L).1 ∧ Q (I.assignSelf x L).2
+  push : ∀ s a x L, ok (.push s a) → P x → Q L → P (I.push x a L).1 ∧ Q (I.push x a L).2
+  pushAt : ∀ s i x L, ok (.pushAt s i) → P x → Q L → i < I.size x → P (I.pushAt x i L).1 ∧ Q (I.pushAt x i L).2
+  resize : ∀ s n x L, ok (.resize s n) → P x → Q L → P (I.resize x n L).1 ∧ Q (I.resize x n L).2
+  write : ∀ s i a x L, ok (.write s i a) → P x → Q L → i < I.size x → P (I.write x i a L).1 ∧ Q (I.write x i a L).2
+  read : ∀ s i x L, ok (.read s i) → P x → Q L → i < I.size x → Q (I.read x i L).2
+  destroy : ∀ s x L, ok (.destroy s) → P x → Q L → Q (I.destroy x L)
+
+def WInv (P : σ → Prop) (Q : Ledger → Prop) (w : World σ) : Prop := (∀ k x, w.objs k = some x → P x) ∧ Q w.led
+
+theorem winv_put {P : σ → Prop} {Q : Ledger → Prop} {w : World σ} (h : WInv P Q w) (k : Nat) (x : σ) (L : Ledger)
+    (hx : P x ∧ Q L) : WInv P Q (w.put k (some x) L) := by
+  refine ⟨?_, hx.2⟩
+  intro j y hy
+  simp only [World.put] at hy
+  by_cases hj : j = k
+  · simp [hj] at hy; subst hy; exact hx.1
+  · simp [hj] at hy; exact h.1 j y hy
+
+theorem step_pres {I : Impl σ α} {P : σ → Prop} {Q : Ledger → Prop} {ok : Op α → Prop} (S : Pres I P Q ok)
+    {w : World σ} (h : WInv P Q w) (op : Op α) (hok : ok op) : WInv P Q (step I w op) := by
+  cases op with
+  | ctor s =>
+    simp only [step]
+    cases hx : w.objs s with
+    | some x => exact h
+    | none => exact winv_put h s _ _ (S.mkDefault s _ hok h.2)
+  | ctorN s n =>
+    simp only [step]
+    cases hx : w.objs s with
+    | some x => exact h
+    | none => exact winv_put h s _ _ (S.mkSized s n _ hok h.2)
+  | ctorV s vs =>
+    simp only [step]
+    cases hx : w.objs s with
+    | some x => exact h
+    | none => exact winv_put h s _ _ (S.mkVariadic s vs _ hok h.2)
+  | copy d s =>
+    simp only [step]
+    cases hd : w.objs d with
+    | some x => exact h
+    | none =>
+      cases hs : w.objs s with
+      | none => exact h
+      | some y => exact winv_put h d _ _ (S.mkCopy d s y _ hok (h.1 s y hs) h.2)
+  | assign d s =>
+    simp only [step]
+    cases hd : w.objs d with
+    | none => exact h
+    | some x =>
+      cases hs : w.objs s with
+      | none => exact h
+      | some y =>
+        by_cases hds : d = s
+        · subst hds
+          simp only [if_true]
+          exact winv_put h d _ _ (S.assignSelf d x _ hok (h.1 d x hd) h.2)
+        · simp only [hds, if_false]
+          exact winv_put h d _ _ (S.assign d s x y _ hok (h.1 d x hd) (h.1 s y hs) h.2)
+  | push s a =>
+    simp only [step]
+    cases hx : w.objs s with
+    | none => exact h
+    | some x => exact winv_put h s _ _ (S.push s a x _ hok (h.1 s x hx) h.2)
+  | pushAt s i =>
+    simp only [step]
+    cases hx : w.objs s with
+    | none => exact h
+    | some x =>
+      by_cases hi : i < I.size x
+      · simp only [hi, if_true]; exact winv_put h s _ _ (S.pushAt s i x _ hok (h.1 s x hx) h.2 hi)
+      · simp only [hi, if_false]; exact h
+  | resize s n =>
+    simp only [step]
+    cases hx : w.objs s with
+    | none => exact h
+    | some x => exact winv_put h s _ _ (S.resize s n x _ hok (h.1 s x hx) h.2)
+  | write s i a =>
+    simp only [step]
+    cases hx : w.objs s with
+    | none => exact h
+    | some x =>
+      by_cases hi : i < I.size x
+      · simp only [hi, if_true]; exact winv_put h s _ _ (S.write s i a x _ hok (h.1 s x hx) h.2 hi)
+      · simp only [hi, if_false]; exact h
+  | read s i =>
+    simp only [step]
+    cases hx : w.objs s with
+    | none => exact h
+    | some x =>
+      by_cases hi : i < I.size x
+      · simp only [hi, if_true]; exact ⟨h.1, S.read s i x _ hok (h.1 s x hx) h.2 hi⟩
+      · simp only [hi, if_false]; exact h
+  | destroy s =>
+    simp only [step]
+    cases hx : w.objs s with
+    | none => exact h
+    | some x =>
+      refine ⟨?_, S.destroy s x _ hok (h.1 s x hx) h.2⟩
+      intro j y hy
+      simp only [World.put] at hy
+      by_cases hj : j = s
+      · simp [hj] at hy
+      · simp [hj] at hy; exact h.1 j y hy
+
+theorem run_pres {I : Impl σ α} {P : σ → Prop} {Q : Ledger → Prop} {ok : Op α → Prop} (S : Pres I P Q ok)
+    (h : List (Op α)) {w : World σ} (hw : WInv P Q w) (hok : ∀ op ∈ h, ok op) : WInv P Q (run I w h) := by
+  induction h generalizing w with
+  | nil => exact hw
+  | cons op h ih =>
+    simp only [run]
+    exact ih (step_pres S hw op (hok op List.mem_cons_self)) (fun o ho => hok o (List.mem_cons_of_mem _ ho))
+
+end NmVerif.Containers
+
+namespace NmVerif.Containers
 /-- the client-side validity test `step` applies (for the driver's trace: skipped operations are marked) -/
 def Op.valid (I : Impl σ α) (w : World σ) : Op α → Bool
   | .ctor s | .ctorN s _ | .ctorV s _ => (w.objs s).isNone
